@@ -70,21 +70,38 @@ class Proxy:
             threading.Thread(target=self.pump, args=(l, f, True), daemon=True).start()
 
     def pump(self, src, dst, down):
+        # the two directions end independently, as on a real TCP connection: when the follower closes its socket right after
+        # writing, everything it wrote still has to reach the leader although the leader's answers can no longer be delivered
+        dst_gone = False
         try:
             while True:
-                b = src.recv(65536)
+                try:
+                    b = src.recv(65536)
+                except OSError:
+                    break
                 if not b:
                     break
                 while down and self.hold:
                     time.sleep(0.005)
-                dst.sendall(b)
-        except OSError:
-            pass
-        for s in (src, dst):
-            try:
-                s.close()
-            except OSError:
-                pass
+                if not dst_gone:
+                    try:
+                        dst.sendall(b)
+                    except OSError:
+                        dst_gone = True
+                        if not down:
+                            break
+        finally:
+            if down:
+                for s in (src, dst):
+                    try:
+                        s.close()
+                    except OSError:
+                        pass
+            else:
+                try:
+                    dst.shutdown(socket.SHUT_WR)  # FIN after the last byte; the leader closes, which ends the other direction
+                except OSError:
+                    pass
 
     def cut_all(self):
         with self.lock:
@@ -335,20 +352,26 @@ def R5(w):
 
 
 def R6(w):
-    """will commands registered through the follower: when the client disconnects, Close writes them to the leader — and the link's
-    own reader, relaying the leader's answers to the client that has gone, can close the link under it: wills are lost"""
-    n, lost_runs, worst = 60, 0, 0
-    for attempt in range(12):
-        base = 6000 + attempt * 100
-        f = Bin(w.follower_port)
+    """will commands registered through a follower: when the client disconnects, Close writes them to the leader and closes the link at
+    once — (1) the link's own reader, relaying the leader's answers to the client that has gone, can close the link under it, and
+    (2) closing with the leader's answers unread makes the kernel send RST and discard the wills still in the send queue: wills are lost
+    (C10F_R6_N wills per connection, default 400; C10F_R6_TRIES disconnects, default 8; measured: N=5 1/150, N=20 29/150 disconnects lose wills)"""
+    # a second follower attached to the leader DIRECTLY (no proxy in between: nothing but the two real processes and TCP)
+    port2 = free_port()
+    w.start("follower2", port2, ["--slaveof", "127.0.0.1:%d" % w.leader_port])
+    time.sleep(2.5)
+    n, tries, lost_runs, worst = int(os.environ.get("C10F_R6_N", "400")), int(os.environ.get("C10F_R6_TRIES", "8")), 0, 0
+    for attempt in range(tries):
+        base = 100000 + attempt * (n + 10)
+        f = Bin(port2)
         f.send(lock_frame(1, base, 61, base, timeout=0, expried=5))  # opens the link
         f.frame()
         for i in range(n):
             f.send(lock_frame(8, base + 1 + i, 62, base + 1 + i, timeout=0, expried=8))  # WILL_LOCK (type 8)
-        f.send(bytes([0x56, 1, 5]) + id16(base + 99) + b"\x00" * 45)  # PING: everything before it has been handled
+        f.send(bytes([0x56, 1, 5]) + id16(base + n + 5) + b"\x00" * 45)  # PING: everything before it has been handled
         f.frame()
         f.close()
-        time.sleep(0.5)
+        time.sleep(0.3)
         o = Bin(w.leader_port)
         held = 0
         for i in range(n):
@@ -362,7 +385,7 @@ def R6(w):
             worst = max(worst, n - held)
             say("R6", "attempt %d: %d will LOCKs registered, the connection closed: only %d of the keys are held at the leader" % (attempt, n, held))
     ok = lost_runs > 0
-    return ok, "in %d of 12 disconnects some registered wills never reached the leader (up to %d of %d lost)" % (lost_runs, worst, n)
+    return ok, "in %d of %d disconnects some registered wills never reached the leader (up to %d of %d lost)" % (lost_runs, tries, worst, n)
 
 
 ALL = {"R1": R1, "R2": R2, "R3": R3, "R4": R4, "R5": R5, "R6": R6}
